@@ -550,6 +550,22 @@ theorem C24_limit_zero_history (cfg : Cfg) (h0 : cfg.limit = 0) (ops : List (Op 
     | prune => simp [stepOp] at he
   · intro e he; simp [ginit] at he
 
+/-- **C24_limit_zero_after_reconfig.**  The settings may change in the middle of a history: whatever
+history ran under whatever earlier configuration `cfg` (from any state, so lockout records may exist
+and be running), once the limit is set to 0 (`cfg'`) no attempt is refused and the password is
+consulted — and this stays so after any further history under `cfg'`. -/
+theorem C24_limit_zero_after_reconfig (cfg cfg' : Cfg) (h0 : cfg'.limit = 0) (s : St U)
+    (ops ops' : List (Op U)) (u : U) (k : Kind) :
+    (attempt cfg' (srun cfg' (srun cfg s ops) ops') u k).2.1.isLocked = false ∧
+    (attempt cfg' (srun cfg' (srun cfg s ops) ops') u k).2.2 = true :=
+  C24_limit_zero_never_locks cfg' h0 _ u k
+
+/-- non-vacuity: user 0 is locked out under limit 2 (an attempt is refused), the limit is then set to 0
+while that lockout is running, and the next attempt is answered on the password -/
+example : (attempt ⟨2, 10⟩ (srun ⟨2, 10⟩ (init : St Nat) [.attempt 0 .bad, .attempt 0 .bad]) 0 .good).2.1.isLocked = true ∧
+    (attempt ⟨0, 10⟩ (srun ⟨0, 10⟩ (srun ⟨2, 10⟩ (init : St Nat) [.attempt 0 .bad, .attempt 0 .bad]) [.advance 1]) 0 .good).2.1
+      = .ok := by decide
+
 /-- **C24_prune_never_unlocks.**  `pruneLoginAttempts` never changes the answer of
 `CheckRateLimit` for any user, in any state. -/
 theorem C24_prune_never_unlocks (cfg : Cfg) (s : St U) (u : U) :
